@@ -430,7 +430,9 @@ class GEstimationSNM:
             data['H_psi'] = snm
 
             # Creating new terms to add to model
-            h_terms_list = [w.replace(treatment, 'H_psi') for w in snm_terms]
+            # the treatment is replaced factor by factor: a plain text replacement also rewrote any modifier whose
+            # name contains the treatment's name ('A' inside 'AGE')
+            h_terms_list = [':'.join('H_psi' if f == treatment else f for f in w.split(':')) for w in snm_terms]
             h_terms = ''
             for h in h_terms_list:
                 h_terms += ' + ' + h
